@@ -31,7 +31,9 @@ EXPLANATION = (
     ' '
     'R-C14.7 the published app_sig_is_new flag is the decision prepare() itself used (reaching definitions of its operands are the original lookup).'
     ' '
-    'R-C14.8 the stored version is read only through VersionManager.current_version().')
+    'R-C14.8 the stored version is read only through VersionManager.current_version().'
+    ' '
+    'R-C14.9 quote_sql_param (preview-only parameter substitution) rewrites nothing but the quote character, in the base class and every backend override.')
 NOT_DECIDED = (
     'Statement-by-statement equality of preview and execution for every '
     'upgrade, and byte-identical output across hash seeds (needs execution '
@@ -694,7 +696,49 @@ def r8_stored_version_through_the_manager(ctx):
                'version is always read through current_version()')
 
 
+def r9_preview_quoting_rewrites_only_the_delimiter(ctx):
+    """Execution binds parameters raw (cursor.execute(sql, params)); the
+    preview substitutes them into the text through quote_sql_param().  Every
+    character that helper rewrites other than the string delimiter itself
+    makes the previewed literal denote a different value from the one the
+    execution binds (a doubled backslash is two characters on SQLite and
+    standard PostgreSQL).  The helper - base class and every backend
+    override - may therefore only wrap the value in quotes and escape the
+    quote character."""
+    ctx.rule('R-C14.9')
+    p = ctx.program
+    base = p.cls('db.common', 'BaseEvolutionOperations')
+    n = 0
+    for cls in [base] + list(base.all_subclasses()):
+        f = cls.methods.get('quote_sql_param')
+        if f is None:
+            continue
+        n += 1
+        bad = []
+        for c in walk_no_nested(f.node):
+            if isinstance(c, ast.Call) and isinstance(c.func, ast.Attribute) \
+                    and c.func.attr in ('replace', 'translate', 'sub',
+                                        'encode', 'escape') and c.args:
+                a0 = c.args[0]
+                if c.func.attr == 'replace' and \
+                        isinstance(a0, ast.Constant) and a0.value == "'":
+                    continue
+                bad.append(c)
+        for c in bad:
+            ctx.finding(f, c, '%s.quote_sql_param rewrites more than the '
+                        'quote character (%s): the previewed literal no '
+                        'longer denotes the value the execution binds' % (
+                            cls.name, ' '.join(unparse(c).split())[-70:]),
+                        key='preview-quoting-rewrites:%s' % (
+                            unparse(c.args[0])[:20]))
+        if not bad:
+            ctx.ok(f, '%s.quote_sql_param only quotes and escapes the '
+                   'delimiter' % cls.name)
+    ctx.floor('quote_sql_param implementations', n, 1)
+
+
 def run(ctx):
+    r9_preview_quoting_rewrites_only_the_delimiter(ctx)
     r8_stored_version_through_the_manager(ctx)
     r7_published_new_app_flag_is_the_one_used(ctx)
     r6_state_clone_shares_nothing(ctx)
